@@ -149,23 +149,31 @@ def dup_name_cases(ctx, n):
         ra, rb = G.r_type(ta, None), G.r_type(tb, None)
         opt = rng.choice(['', ' OPTIONAL'])
 
-        def text(na, nb):
-            return ('A DEFINITIONS AUTOMATIC TAGS ::= BEGIN\n%s ::= %s\nSA ::= SEQUENCE { m %s%s, n %s }\nEND\n'
+        def text(na, nb, inline=False):
+            ua, ub = (ra, rb) if inline else (na, nb)
+            return ('A DEFINITIONS AUTOMATIC TAGS ::= BEGIN\n%s ::= %s\nSA ::= SEQUENCE { m %s%s, n %s }\n'
+                    'SA2 ::= SEQUENCE { m %s, q BOOLEAN }\nEND\n'
                     'B DEFINITIONS AUTOMATIC TAGS ::= BEGIN\n%s ::= %s\nSB ::= SEQUENCE { m %s, k SEQUENCE OF %s }\nEND\n'
-                    % (na, ra, na, opt, na, nb, rb, nb, nb))
-        t1, t2 = text('Dup', 'Dup'), text('DupA', 'DupB')
+                    % (na, ra, ua, opt, ua, ua, nb, rb, ub, ub))
+        t1, t2, t3 = text('Dup', 'Dup'), text('DupA', 'DupB'), text('DupA', 'DupB', inline=True)
         va = {'m': g.gen_value(ta), 'n': g.gen_value(ta)}
+        va2 = {'m': g.gen_value(ta), 'q': True}
         vb = {'m': g.gen_value(tb), 'k': [g.gen_value(tb)]}
         ctx.case(('dup', ta['k'], tb['k'], opt))
         ctx.count('dup-name')
-        for tname, v in (('SA', va), ('SB', vb)):
-            r = compare_pair(t1, t2, [c for c in G.CODECS if c != 'xer'], tname, v)
-            if r is not None:
-                ctx.violation('a type name used in two modules: %s' % r,
-                              dict(kind='pair', id='same-type-name-in-two-modules', arrangement1=t1, arrangement2=t2,
-                                   codecs=[c for c in G.CODECS if c != 'xer'], type=tname, value=repr(v)))
+        codecs = [c for c in G.CODECS if c != 'xer']
+        done = False
+        for other, what in ((t2, 'a type name used in two modules'), (t3, 'references against the inline form')):
+            for tname, v in (('SA', va), ('SA2', va2), ('SB', vb)):
+                r = compare_pair(t1, other, codecs, tname, v)
+                if r is not None:
+                    ctx.violation('%s: %s' % (what, r),
+                                  dict(kind='pair', id='same-names', arrangement1=t1, arrangement2=other,
+                                       codecs=codecs, type=tname, value=repr(v)))
+                    done = True
+                    break
+            if done:
                 break
-
 
 # ---------------------------------------------------------------------------
 # property test on /repo
@@ -354,7 +362,9 @@ def corr_model(ctx, ncases):
                                   dict(kind='corr-flatten', arrangement1=cases[idx - 1]['text'], arrangement2=c['text'],
                                        type=n, steps=c['log']), no_input=True)
                     break
-    ctx.extra['model_vs_implementation'] = {'types': total, 'agree': agree}
+    mv = ctx.extra.setdefault('model_vs_implementation', {'types': 0, 'agree': 0})
+    mv['types'] += total
+    mv['agree'] += agree
     ctx.log('correspondence: %d/%d compiled types agree with the model' % (agree, total))
 
 
@@ -407,8 +417,13 @@ def run(ctx):
     witnesses(ctx)
     known_findings(ctx)
     dup_name_cases(ctx, 6 if ctx.quick else 80)
-    pt_arrangements(ctx, 60 if ctx.quick else 500, 3, 3 if ctx.quick else 4)
+    pt_arrangements(ctx, 40 if ctx.quick else 500, 3, 3 if ctx.quick else 4)
     ctx.log('property test done')
-    corr_model(ctx, 12 if ctx.quick else 150)
+    total = 12 if ctx.quick else 150
+    done = 0
+    while done < total:
+        n = min(25, total - done)
+        corr_model(ctx, n)
+        done += n
     if not ok:
         common.proof_broken(ctx)
